@@ -47,6 +47,7 @@ def gen_case(streams, tier):
     cfg = gen.make_cfg(nets=(2, 14), names=g.choice(['plain', 'awkward']),
                        mem_wide_aw=0.0)
     script = gen.gen_script(g, cfg)
+    script, stage = gen.maybe_stage(g, script, 0.2, ['sim', 'fast', 'export', 'analysis', 'optimized_copy', 'copy'])
     ncyc = streams['inputs'].randint(3, 14)
     has_mem = any(not m.get('rom') for m in script['mems'])
     init = gen.gen_init(g, script, allow_default=not (kind == 'compiled' and has_mem))
@@ -84,6 +85,7 @@ def gen_case(streams, tier):
         'wrong_cells': wrong, 'shadow': shadow,
         'batches': [streams['sched'].randint(1, 4) for _ in range(ncyc)],
         'vcd_clock': g.random() < 0.3,
+        'stage': stage,
         'sched': world.gen_sched(streams),
     }
 
@@ -242,7 +244,7 @@ def run(case, res):
     sched = case['sched']
     kind = case['kind']
     world.setup_world(sched)
-    b = world.build_dut(script, sched)
+    b = world.build_dut(script, sched, stage=world.stage_with_hook(case.get('stage'), res))
     aw = case.get('assert_wire')
     aw2 = case.get('assert_wire2') if aw else None
     if aw and aw in b.wires:
